@@ -167,6 +167,12 @@ def r2(cx):
 def r2b(cx):
     F = cx.F
     body = F.main_body(OPEN_AND_MOVE)
+    # the move onto the target may live in a private helper of the module called from open_and_move
+    if not Q.find_calls(body, ['*::Dup::dup2']):
+        for blk, t in body.calls():
+            for n in Q.callee_names(t):
+                if n.startswith('yash_semantics::redir::') and n in F.bodies and Q.find_calls(F.main_body(n), ['*::Dup::dup2']):
+                    body = F.main_body(n)
     cx.fn(body.fn)
     dup2 = Q.find_calls(body, ['*::Dup::dup2'])
     cx.require(len(dup2) == 1, 'expected one dup2 in open_and_move')
